@@ -12,3 +12,15 @@ package trace
 //@   requires req != nil && pw != nil
 //@   modifies everything
 //@   ensures result != nil
+
+// helpers of newRecord: they read the request / response headers and allocate the record, no shared state
+//@ func captureHeaders
+//@   props C09
+//@   modifies everything
+//@ func bodyBytes
+//@   props C09
+//@   modifies everything
+//@ func newTLS
+//@   props C09
+//@   requires req != nil
+//@   modifies everything
